@@ -10,6 +10,7 @@ _INIT_INLINE_COMMENT = re.compile(" #")
 _RDF_TYPE_CONTRACTED = ["a", "rdf:type"]
 _RDF_TYPE_URI = "<http://www.w3.org/1999/02/22-rdf-syntax-ns#type>"
 _BOOLEANS = ["true", "false"]
+_ABSOLUTE_IRI = re.compile(r"[A-Za-z][A-Za-z0-9+.\-]*:")  # an IRI with a scheme (http:, https:, urn:, mailto:...)
 _INI_BASE_URIS = ["/", "#"]
 _CLOSURES = [",", ";", "."]
 _S = 0
@@ -380,7 +381,7 @@ class BigTtlTriplesYielder(BaseTriplesYielder):
             return cornered_element  # There is no base
         elif cornered_element[1] in _INI_BASE_URIS:
             return "<" + self._base + cornered_element[2:-1] + ">"
-        elif not cornered_element[1:].startswith("http"):
+        elif _ABSOLUTE_IRI.match(cornered_element[1:]) is None:  # no scheme: relative IRI
             return "<" + self._base + cornered_element[1:-1] + ">"
         else:
             return cornered_element  # Nothing to do with base
